@@ -61,7 +61,7 @@ Proof. exact Slice_bitwise. Qed.
 Print Assumptions C14_Slice_bitwise.
 
 (** the boolean checkers that judge the implementation's output in the correspondence run decide
-    exactly the specification, and the specification admits one result only *)
+    exactly the specification, and the specification allows one result only *)
 Theorem C14_checkers : forall vs w ws from to r,
   (spec_Join_ok vs w r = true <-> spec_Join vs w r) /\
   (spec_Slice_ok ws from to r = true <-> spec_Slice ws from to r).
